@@ -186,6 +186,14 @@ def dispatch_cases(T):
             for al in aliases:
                 kal = K('%s_%s_alias_%s' % (cfg.name, al, sc.tag), ps, '*o = %s(%s);' % (al, args), cfg)
                 cs.append(ident_case('%s == %s under %s <%s>' % (al, full, cname, T), kal, kfull, mt, 'dispatch'))
+            # the half-suffixed forms whose explicit half differs from the configuration: the other half still comes from the configuration
+            if fam != 'infinitePerspective':
+                oh = 'LH' if hand == 'RH' else 'RH'
+                od = 'ZO' if depth == 'NO' else 'NO'
+                for al, tgt in ((fam + od, fam + hand + '_' + od), (fam + oh, fam + oh + '_' + depth)):
+                    kal = K('%s_%s_alias_%s' % (cfg.name, al, sc.tag), ps, '*o = %s(%s);' % (al, args), cfg)
+                    ktg = K('%s_%s_%s' % (cfg.name, tgt, sc.tag), ps, '*o = %s(%s);' % (tgt, args), cfg)
+                    cs.append(ident_case('%s == %s under %s <%s>' % (al, tgt, cname, T), kal, ktg, mt, 'dispatch'))
         # project / unProject / lookAt
         pj = [Par('o', v3, False), Par('a', v3), Par('m', mt), Par('p', mt), Par('v', v4)]
         for base in ('project', 'unProject'):
